@@ -781,6 +781,10 @@ func checkConn(c *tcase, chunks [][]byte, out *outcome, model, modelObserved str
 			return
 		}
 	}
+	if !wantClosed && out.Status == "c" {
+		viol("wrong-close", "a legal length prefix was answered with PackageError: the connection is closed although every length prefix sent was legal")
+		return
+	}
 	if !sameMultiset(got, want) {
 		gs, ws := sortedCopy(got), sortedCopy(want)
 		inWant := func(p []byte) int {
